@@ -46,7 +46,9 @@ class Gen:
             mk = (lambda x: "Variable(%s)" % x) if as_var else (lambda x: x)
             v("ok", "ppl_dimension_type %s = 1;" % a, a, mk(a))
             v("dim7", "ppl_dimension_type %s = 7;" % a, a, mk(a))
-            if "add_space_dimensions" in fname or "expand_space" in fname:
+            # only where the library checks the overflow BEFORE allocating (Octagonal_Shape::add_space_dimensions_and_embed
+            # has no such check on the unchanged tree: asking for max_space_dimension() more dimensions exhausts memory)
+            if ("add_space_dimensions" in fname or "expand_space" in fname) and not self.D.startswith("Octagonal_Shape"):
                 v("maxdim", "ppl_dimension_type %s = Dom::T::max_space_dimension();" % a, a, mk(a))
         elif ptype == "ppl_const_Linear_Expression_t":
             v("ok", "cif::CLE %s(%d, DIM);" % (a, 3 + idx), a + ".h", "cif::cxx(%s.h)" % a, "W.add(ppl_Linear_Expression_ascii_dump, (ppl_const_Linear_Expression_t) %s.h);" % a)
